@@ -44,7 +44,8 @@ Record file := { f_hdr : hdr; f_data : content }.
 Definition encode (c : cfg) (s : sys) (h : hdr) : hdr * N * sys :=
   let '(enc, s) := pop_enc s (h_size h) in
   let h1 := set_pax h (pax_set K_usize (decimal (h_size h)) (h_pax h)) in
-  (with_size_name h1 enc (add_suffix c (h_name h1)), enc, s).
+  (* an encoder may emit nothing (zstandard for empty content): such a record carries no encoded content and keeps its name *)
+  (with_size_name h1 enc (if 0 <? enc then add_suffix c (h_name h1) else h_name h1), enc, s).
 
 Definition mk_member (s : sys) (h : hdr) (d : option content) (enc : N) : member * sys :=
   let '(hb, s) := pop_hb s in
